@@ -306,6 +306,12 @@ def run(ctx, chk, tier="quick"):
         from ..cli import entry_binding
         ef = ctx.func(entry)
         bind, n = entry_binding(ctx, disp, br, ef)
+        if bind is None:
+            chk.indeterminate("C09.O6", where_of(disp, br), "%s: call of %s not found in the dispatch" % (label, entry))
+            continue
+        if not opts.get(label):
+            chk.indeterminate("C09.O6", where_of(disp, br), "%s: the options of this task's parser could not be enumerated" % label)
+            continue
         if bind is not None:
             pname = ef.params[1]
             val = bind.get(pname)
